@@ -298,7 +298,7 @@ impl Storage for SqliteStorage {
         doc_ids: impl Iterator<Item = Key> + Send,
     ) -> Result<Self::DocsIter, Self::Error> {
         let doc_ids = doc_ids
-            .map(|id| (keyspace.to_string(), id))
+            .map(|id| (keyspace.to_string(), id as i64))
             .collect::<Vec<_>>();
         let docs = self
             .inner
